@@ -110,6 +110,9 @@ impl Mix {
                 m.create_index = 3;
                 m.restore = 0;
             }
+            "C22" | "C23" => {
+                m = Self { append: 25, overwrite: 0, delete: 14, update: 5, merge: 5, merge_partial: 0, compact: 10, create_index: 14, optimize: 10, drop_index: 0, add_col: 0, drop_col: 0, rename_col: 0, config: 0, restore: 0 };
+            }
             "C38" => {
                 m.create_index = 10;
                 m.optimize = 5;
@@ -272,6 +275,14 @@ impl Gen {
                         defer_remap: rng.chance(0.2) && self.allow_defer_remap,
                     };
                 }
+                7 if st.col("vec").is_some() => {
+                    // search tables: vector and full-text indices
+                    if rng.chance(0.5) {
+                        let live = st.rows.len().max(1);
+                        return Op::CreateVectorIndex { partitions: (rng.range(1, 4) as usize).min(live), cosine: rng.chance(0.4) };
+                    }
+                    return Op::CreateFtsIndex;
+                }
                 7 => {
                     let mut cands: Vec<(&str, IdxKind)> = Vec::new();
                     if self.exact_indices {
@@ -361,6 +372,8 @@ pub fn prop_for_op(op: &Op) -> &'static str {
         Op::AddColSql { .. } | Op::AddColNull { .. } | Op::DropCol { .. } | Op::RenameCol { .. } => "C14",
         Op::Restore { .. } => "C07",
         Op::CreateIndex { .. } | Op::DropIndex { .. } | Op::OptimizeIndices { .. } => "C19",
+        Op::CreateVectorIndex { .. } => "C22",
+        Op::CreateFtsIndex => "C23",
         Op::UpdateConfig { .. } => "C05",
     }
 }
@@ -467,7 +480,15 @@ impl Runner {
             gen.exact_indices = false;
             gen.inexact_indices = false;
         }
-        let mut st = TableState { cols: default_cols(), rows: vec![], order_exact: true, config: BTreeMap::new(), indices: vec![] };
+        let mut cols = default_cols();
+        if matches!(cfg.prop.as_str(), "C22" | "C23") {
+            let dim = *rng.pick(&[2i32, 3, 5, 8, 13]);
+            cols.push(ColDef { name: "vec".into(), ty: Ty::Vec(dim), nullable: true });
+            cols.push(ColDef { name: "txt".into(), ty: Ty::Str, nullable: true });
+            gen.exact_indices = false;
+            gen.inexact_indices = false;
+        }
+        let mut st = TableState { cols, rows: vec![], order_exact: true, config: BTreeMap::new(), indices: vec![] };
         let n0 = rng.range(5, 40) as usize;
         st.rows = gen.fresh_rows(rng, &st.cols, n0);
         let per_file = rng.range(3, 20) as usize;
@@ -1033,6 +1054,12 @@ pub async fn run_seq(cfg: RunCfg) -> RunResult {
             }
             if prop_now == "C16" {
                 r.o_knobs(3).await;
+            }
+            if prop_now == "C22" {
+                r.o_knn(6).await;
+            }
+            if prop_now == "C23" {
+                r.o_fts(6).await;
             }
             if prop_now == "C38" {
                 r.o_cache_diff(what).await;
